@@ -89,7 +89,8 @@ def catalogue(thorough):
         pool = [c for c in (und4 if und else rw.dir4_all(2, 3)) if 2 <= len(c[2]) <= (3 if thorough else 2)]
         if not thorough:
             pool = pool[::2]
-        named = [c for c in (rw.NAMED_UND if und else rw.NAMED_DIR) if c[1] == 5][:1] if thorough else []
+        named = [('und5_0123_24', 5, [(0, 1), (2, 3), (2, 4)])] if (thorough and und) else \
+            ([('dir5_0123_42', 5, [(0, 1), (2, 3), (4, 2)])] if thorough else [])   # 3 connections: 3 iterations x 120 orders
         for tag, n, es in pool + named:
             W = rw.und_from_edges(n, es, True) if und else rw.dir_from_arcs(n, es, True)
             if fn.endswith('_connected'):
